@@ -572,6 +572,9 @@ func propC07(j *Job) {
 	}
 	for _, mode := range modes {
 		j.Explore(fmt.Sprintf("FR/%s", mode.Name), fwdAcrossResetScenario(withBase(mode.A, 228, 0xFFFFFFF9, 4000), withBase(mode.B, 228, 50, 4000)), Budget{}, nil)
+		for _, v := range []string{"crossing", "lost-sacks"} {
+			j.Explore(fmt.Sprintf("FG/%s/%s", mode.Name, v), fwdAfterResetScenario(withBase(mode.A, 228, 0xFFFFFFF9, 4000), withBase(mode.B, 228, 50, 4000), v), Budget{}, nil)
+		}
 	}
 	for _, mode := range modes {
 		j.Explore(fmt.Sprintf("FB/%s", mode.Name), fwdBacklogScenario(withBase(mode.A, 228, 0xFFFFFFF9, 4000), withBase(mode.B, 228, 50, 4000)), Budget{}, nil)
@@ -1013,6 +1016,175 @@ func fwdAcrossResetScenario(a, b epCfg) *Scenario {
 			m.Observe("held=%d delivered=%v", held, ok)
 			m.CloseBoth()
 			m.Join(t3, t4)
+		},
+		Final: func(m *Sim, x *Exec) { generalVerdicts(m, x, false) },
+	}
+}
+
+// fwdAfterResetScenario: the answers of B travel slowly.  A (retransmission limit 0) sends m0,
+// later m1, closes stream 1 - B reads both, performs the reset, closes its own direction - and
+// loses a message of stream 2.  Only now does B's first SACK (for m0) reach A: the skip report
+// A builds covers m1 and the lost message.  It reaches a B that has no stream 1 any more.  When
+// both directions are reset and A opens the identifier again, the new incarnation's messages
+// are delivered: the late skip report has not left a stream with an advanced cursor behind.
+//
+// variant "crossing": everything from B is slow, so the skip report is built before A has B's
+// answer to its reset request (A cannot know that B has performed it).  variant "lost-sacks":
+// the network is fast, but B's SACKs are lost for a while: A learns that the reset was performed,
+// its cumulative ack point stays behind, and the skip report is built by the T3 expiry afterwards.
+func fwdAfterResetScenario(a, b epCfg, variant string) *Scenario {
+	return &Scenario{
+		Name:    "fwd-after-reset",
+		Horizon: 300 * time.Second,
+		Setup: func(m *Sim) {
+			if variant == "crossing" {
+				m.W.delay = [2]time.Duration{10 * time.Millisecond, 600 * time.Millisecond}
+			}
+		},
+		Body: func(m *Sim) {
+			if !m.Connect(a, b) {
+				m.Failf("connect", "handshake failed: %v %v", m.Err[0], m.Err[1])
+				m.closeFailedTransports()
+				m.CloseBoth()
+				return
+			}
+			A, B := m.As[0], m.As[1]
+			loseData := 0
+			loseSacks := variant == "lost-sacks"
+			m.W.killFn = func(p *wpkt) bool {
+				if p.dec != nil && p.from == 1 && loseSacks {
+					only := len(p.dec.Chunks) > 0
+					for _, c := range p.dec.Chunks {
+						if c.Typ != wSACK {
+							only = false
+						}
+					}
+					return only
+				}
+				if p.dec == nil || p.from != 0 || loseData == 0 {
+					return false
+				}
+				for _, c := range p.dec.Chunks {
+					if (c.Typ == wDATA || c.Typ == wIDATA) && c.SID == 2 {
+						loseData--
+						return true
+					}
+				}
+				return false
+			}
+			// B: every stream it is handed gets a reader; end-of-stream is answered by closing
+			type got struct {
+				sid  uint16
+				data string
+			}
+			var gots []got
+			accepted := 0
+			var rts []*vsched.Thread
+			acc := m.Go("acceptB", func() {
+				for {
+					s, err := B.AcceptStream()
+					if err != nil {
+						return
+					}
+					m.mu.Lock()
+					accepted++
+					m.streamsSeen = append(m.streamsSeen, s)
+					m.mu.Unlock()
+					rts = append(rts, m.Go(fmt.Sprintf("readB.%d.%d", s.streamIdentifier, accepted), func() {
+						buf := make([]byte, 2000)
+						for {
+							n, _, err := s.ReadSCTP(buf)
+							if err != nil {
+								_ = s.Close()
+								return
+							}
+							m.mu.Lock()
+							gots = append(gots, got{s.streamIdentifier, string(buf[:n])})
+							m.mu.Unlock()
+						}
+					}))
+				}
+			})
+			s1, _ := A.OpenStream(1, PayloadTypeWebRTCBinary)
+			s2, _ := A.OpenStream(2, PayloadTypeWebRTCBinary)
+			m.streamsSeen = append(m.streamsSeen, s1, s2)
+			s1.SetReliabilityParams(false, ReliabilityTypeRexmit, 0)
+			s2.SetReliabilityParams(false, ReliabilityTypeRexmit, 0)
+			eofA := false
+			ra := m.Go("readA.1", func() {
+				buf := make([]byte, 2000)
+				for {
+					if _, _, err := s1.ReadSCTP(buf); err != nil {
+						eofA = true
+						return
+					}
+				}
+			})
+			_, _ = s1.WriteSCTP(payload(1, 0, 30), PayloadTypeWebRTCBinary)
+			m.Sleep(300 * time.Millisecond) // B's delayed acknowledgement of m0 is on its slow way
+			_, _ = s1.WriteSCTP(payload(1, 1, 31), PayloadTypeWebRTCBinary)
+			_ = s1.Close()
+			m.Sleep(50 * time.Millisecond)
+			loseData = 1
+			_, _ = s2.WriteSCTP(payload(2, 0, 32), PayloadTypeWebRTCBinary)
+			if loseSacks {
+				m.Sleep(3 * time.Second) // the T3 expiry builds the skip report meanwhile
+				loseSacks = false
+			}
+			// let everything settle: both directions of stream 1 reset, nothing outstanding
+			if !m.WaitUntil("eof-at-A", 60*time.Second, func() bool { return eofA }) {
+				m.Failf("fwd.base", "A never saw the end of B's direction of stream 1")
+			}
+			m.WaitUntil("settled", 60*time.Second, func() bool {
+				return len(A.reconfigs) == 0 && len(B.reconfigs) == 0 && drained(A) && drained(B)
+			})
+			m.Sleep(3 * time.Second)
+			m.Join(ra)
+			// the identifier is opened again, reliable and ordered
+			n1, err := A.OpenStream(1, PayloadTypeWebRTCBinary)
+			if err != nil {
+				m.Failf("reopen", "OpenStream(1) on A after both directions were reset: %v", err)
+				m.CloseBoth()
+				return
+			}
+			m.streamsSeen = append(m.streamsSeen, n1)
+			var want []string
+			for i := 0; i < 3; i++ {
+				d := payload(1, 20+i, 40+i)
+				want = append(want, string(d))
+				_, _ = n1.WriteSCTP(d, PayloadTypeWebRTCBinary)
+			}
+			ok := m.WaitUntil("new-incarnation-delivered", 30*time.Second, func() bool {
+				m.mu.Lock()
+				defer m.mu.Unlock()
+				k := 0
+				for _, g := range gots {
+					if g.sid == 1 && k < len(want) && g.data == want[k] {
+						k++
+					}
+				}
+				return k == len(want)
+			})
+			if !ok {
+				m.mu.Lock()
+				n := 0
+				for _, g := range gots {
+					if g.sid == 1 {
+						n++
+					}
+				}
+				acc := accepted
+				m.mu.Unlock()
+				cur := "no stream 1 at B"
+				if st := B.streams[1]; st != nil {
+					cur = fmt.Sprintf("B's stream 1 waits for SSN %d / MID %d", st.reassemblyQueue.nextSSN, st.reassemblyQueue.nextMID)
+				}
+				m.Failf("skip.destroyed", "stream 1 was reset in both directions and opened again; its three reliable ordered messages are not delivered within 30 s (%d messages of stream 1 read at B in all, %d streams handed to B's application; %s; A has %d bytes buffered): a skip report that arrived after the reset re-created the stream with an advanced cursor", n, acc, cur, bufAmt(A))
+			}
+			m.Observe("ok=%v accepted=%d", ok, accepted)
+			m.CloseBoth()
+			m.Join(acc)
+			m.Join(rts...)
 		},
 		Final: func(m *Sim, x *Exec) { generalVerdicts(m, x, false) },
 	}
